@@ -969,3 +969,116 @@ func ruleBindResolved(c *Ctx, r *Report) {
 		r.info(rule, "scan/bind", "-", desc, "no built-in calls Env.bind directly")
 	}
 }
+
+// ---------------------------------------------------------------------------
+// R-TERM-SLICE-APPEND (C02; added after seed C02g): terms are immutable values - unification "binds variables,
+// it never changes a term". A list term whose Go representation is a slice shares its backing array with every
+// other term that was built from it; Go's append writes into that array whenever it has spare capacity. The
+// first argument of append is therefore never (a reslice or conversion of) a value of a slice-typed term type
+// that was obtained from a term: two append/3 calls on one findall/3 result would overwrite each other's answer.
+func ruleTermSliceAppend(c *Ctx, r *Report) {
+	const rule = "R-TERM-SLICE-APPEND"
+	desc := "Go's append never grows a slice that is (part of) an existing term"
+	termIface, _ := c.engType("Term").Underlying().(*types.Interface)
+	isTermSlice := func(t types.Type) bool {
+		n, ok := t.(*types.Named)
+		if !ok || n.Obj().Pkg() == nil || n.Obj().Pkg().Path() != enginePkgPath {
+			return false
+		}
+		if _, isSlice := n.Underlying().(*types.Slice); !isSlice {
+			return false
+		}
+		return termIface != nil && types.Implements(n, termIface)
+	}
+	n, napp := 0, 0
+	for _, fn := range c.LibFuncs() {
+		k := 0
+		eachInstr(fn, func(in ssa.Instruction) {
+			call, ok := in.(*ssa.Call)
+			if !ok {
+				return
+			}
+			b, ok := call.Call.Value.(*ssa.Builtin)
+			if !ok || b.Name() != "append" || len(call.Call.Args) == 0 {
+				return
+			}
+			napp++
+			// walk to the origins of the first argument, through reslices and conversions
+			seen := map[ssa.Value]bool{}
+			var bad ssa.Value
+			fresh := true
+			var walk func(v ssa.Value, viaOwnAppend bool)
+			walk = func(v ssa.Value, viaOwnAppend bool) {
+				if v == nil || seen[v] {
+					return
+				}
+				seen[v] = true
+				switch x := v.(type) {
+				case *ssa.MakeSlice, *ssa.Const:
+					return
+				case *ssa.Slice:
+					if _, isAlloc := x.X.(*ssa.Alloc); isAlloc {
+						return // a literal
+					}
+					walk(x.X, viaOwnAppend)
+					return
+				case *ssa.Convert:
+					walk(x.X, viaOwnAppend)
+					return
+				case *ssa.ChangeType:
+					walk(x.X, viaOwnAppend)
+					return
+				case *ssa.Phi:
+					for _, e := range x.Edges {
+						walk(e, viaOwnAppend)
+					}
+					return
+				case *ssa.Call:
+					if bb, ok := x.Call.Value.(*ssa.Builtin); ok && bb.Name() == "append" {
+						walk(x.Call.Args[0], true)
+						return
+					}
+				case *ssa.UnOp:
+					if x.Op == token.MUL {
+						if cell := c.varCell(x.X); cell != nil && !c.cellEscapes(cell) {
+							for _, st := range c.storesTo(cell) {
+								walk(st.Val, viaOwnAppend)
+							}
+							return
+						}
+					}
+				}
+				if isTermSlice(v.Type()) {
+					fresh = false
+					bad = v
+				}
+			}
+			walk(call.Call.Args[0], false)
+			// only report on slices of terms
+			if !involvesTermSlice(seen, isTermSlice) {
+				return
+			}
+			n++
+			k++
+			key := fmt.Sprintf("%s/append#%d", fname(fn), k)
+			if fresh {
+				r.ok(rule, key, c.at(in), desc, "the slice that grows was made here (make, literal, nil or an earlier append to such a slice)", true)
+			} else {
+				r.bad(rule, key, c.at(in), desc, "the slice that grows is a term obtained elsewhere ("+valName(bad)+"): with spare capacity append writes into the array it shares with the terms built from it - a term already handed out changes (append(L,[x],A), append(L,[y],B) leaves A = [..,y])")
+			}
+		})
+	}
+	if n == 0 {
+		r.info(rule, "scan/append", "-", desc, fmt.Sprintf("none of the %d append calls of the library grows a slice-typed term", napp))
+	}
+	r.analysed(rule, fmt.Sprintf("%d append calls, %d on slice-typed terms", napp, n))
+}
+
+func involvesTermSlice(seen map[ssa.Value]bool, isTermSlice func(types.Type) bool) bool {
+	for v := range seen {
+		if isTermSlice(v.Type()) {
+			return true
+		}
+	}
+	return false
+}
